@@ -7,6 +7,7 @@ import Csvq.Model.ParseTime
 import Csvq.Model.FormatFloat
 import Csvq.Model.FormatTime
 import Csvq.Model.CellText
+import Csvq.Model.CastFull
 import Csvq.Model.Unicode
 namespace Csvq.Drive
 open Csvq Csvq.Proto
@@ -64,6 +65,13 @@ def c06 (cmd : String) (args : List String) : String :=
     match parseAOp op, parseProfile a, parseProfile b with
     | some op, some a, some b => showCalc (calculate FVal.ieee op a b)
     | _, _, _ => bad
+  | "unary", [a] =>
+    -- +x  -x  NOT x  !x
+    match parseProfile a with
+    | some a =>
+      String.intercalate " " [showCalc (evalUnary FVal.ieee false a), showCalc (evalUnary FVal.ieee true a),
+        "T" ++ (evalNot a).toStr, "T" ++ (evalNot a).toStr]
+    | none => bad
   | "rowcmp", op :: l =>
     match parseCOp op, parseProfiles l with
     | some op, some l =>
@@ -84,6 +92,13 @@ def c06 (cmd : String) (args : List String) : String :=
       | "string" => showOpt showVal (FF.castString a.raw)
       | _ => bad
     | none => bad
+  | "castx", [off, a] =>
+    -- INTEGER FLOAT BOOLEAN TERNARY DATETIME STRING of one value; `off` = zone offset of a Datetime argument
+    match off.toInt?, parseProfile a with
+    | some off, some a =>
+      String.intercalate " " [showVal (castInteger a), showVal (castFloat a), showVal (castBoolean a), showVal (castTernary a),
+        showVal (castDatetime a), showVal (castStringFull a.raw off)]
+    | _, _ => bad
   | "sint", [h] =>
     match parseHexX h with
     | some b => showOpt toString (strToIntStrict b) ++ " " ++ (strTernary b).toStr
